@@ -9,8 +9,14 @@ PROVED:
     the write lock for the whole batch, RemoveTriples once per triple; no method calls another locking
     method of the same receiver (no nesting);
   * `no_lock_cycle` — with one lock at a time nobody waits in a cycle: whenever a thread waits, some
-    unfinished thread holds what it waits for and is not itself waiting (deadlock needs a consumer that
-    stops draining a channel while the producer holds the read lock — the property's proviso);
+    unfinished thread holds what it waits for and is not itself waiting FOR A LOCK. A look-up, however, also
+    waits for its consumer while it holds the read lock; that is the subject of the next item;
+  * `draining_consumer_never_halts`, `without_writer_nothing_halts`, `consumer_reading_the_graph_can_halt`,
+    `halt_search_sound` (Model/Chan.lean: one graph lock with Go's writer preference, a look-up of n results that
+    sends under the read lock, its consumer doing b reads of the same graph per result, one writer) — a consumer
+    that only drains never brings the three to a halt, for every n and every schedule; nor does anything halt
+    without a writer; but with n ≥ 2, b ≥ 1 and a writer a halt IS reachable (the witness is replayed on the
+    implementation by the `N` lines: known finding D37);
   * `rw_linearizable`, `rw_real_time` — calls that follow this discipline (one readers-writer lock, taken for the whole
     body: exclusive by updates, shared by look-ups), modelled in small steps (an update is a sequence of micro-writes, a
     look-up a sequence of micro-reads), are linearizable for every number of calls, every batch size and every
@@ -32,6 +38,7 @@ import BW.Proofs.Linear
 import BW.Generated.LockFacts
 import BW.Proofs.RW
 import BW.Model.Store
+import BW.Proofs.Chan
 
 namespace BW.Props.C07
 open BW.Model.Linear BW.Proofs.Linear BW.Generated
@@ -114,6 +121,40 @@ example :
     resultOf (((BW.Model.RW.start 0 exOps).run [0, 1, 0, 0, 1, 1, 0, 0, 1, 1, 1]).ths[1]?) = some [2] ∧
     ((BW.Model.RW.start 0 exOps).run [0, 1, 0, 0, 1, 1, 0, 0, 1, 1, 1]).order = [0, 1] := by decide
 
+
+/-! ### A look-up sends under the read lock: when can its consumer, a writer and the look-up halt? -/
+
+open BW.Model.Chan in
+/-- A consumer that only drains the channel: whatever the number of results and the schedule (a writer included),
+    either everybody has finished or somebody can move. -/
+theorem draining_consumer_never_halts (n : Nat) (sched : List Tid) :
+    (run (start n 0) sched).finished = true ∨ (run (start n 0) sched).stuck = false :=
+  drain_never_deadlocks n sched
+
+open BW.Model.Chan in
+/-- Without a writer nothing halts, whatever the consumer reads in between. -/
+theorem without_writer_nothing_halts (n b : Nat) (sched : List Tid) :
+    (run ⟨n, b, .idle, .waitRecv, .done⟩ sched).finished = true ∨ (run ⟨n, b, .idle, .waitRecv, .done⟩ sched).stuck = false :=
+  no_writer_never_deadlocks n b sched
+
+open BW.Model.Chan in
+/-- The property FAILS on this model (and on the code — D37): two results, a consumer that tests what it received,
+    a writer arriving in between. -/
+theorem consumer_reading_the_graph_can_halt :
+    (run (start 2 1) [.p, .p, .w]).stuck = true ∧ (run (start 2 1) [.p, .p, .w]).finished = false :=
+  nested_read_deadlocks
+
+open BW.Model.Chan in
+/-- The driver's answer "can-halt" on an `N` line is backed by a schedule. -/
+theorem halt_search_sound (fuel : Nat) (s0 : Sys) (h : canHalt fuel [s0] = true) :
+    ∃ sched, (run s0 sched).stuck = true ∧ (run s0 sched).finished = false := by
+  obtain ⟨s, hs, sched, hr⟩ := canHalt_sound fuel [s0] h
+  rw [List.mem_singleton.mp hs] at hr
+  exact ⟨sched, hr⟩
+
+/-- The fact the model rests on, regenerated: every look-up holds the read lock for its whole body — sends included. -/
+example : (lockFacts.any fun f => f.name == "Triples" && f.lock == .read && f.scope == .whole) = true := by decide
+
 end BW.Props.C07
 
 #print axioms BW.Props.C07.lock_discipline
@@ -124,3 +165,7 @@ end BW.Props.C07
 #print axioms BW.Props.C07.rw_linearizable
 #print axioms BW.Props.C07.rw_real_time
 #print axioms BW.Props.C07.store_batch_is_atomic
+#print axioms BW.Props.C07.draining_consumer_never_halts
+#print axioms BW.Props.C07.without_writer_nothing_halts
+#print axioms BW.Props.C07.consumer_reading_the_graph_can_halt
+#print axioms BW.Props.C07.halt_search_sound
